@@ -304,13 +304,11 @@ def fd_jacobian(q, rel=1e-3, skip=None, max_cols=None, rng=None):
             # scale, e.g. exp(a) - 1 for a ~ 1e-11: then the small steps say nothing)
             selfcons = spread <= 1e-4 * np.maximum(np.abs(Jt), np.abs(Jt2)) + 1e-9 * colmax[None, :]
             off = selfcons & (np.abs(est - Jt) > 3.0 * nb + 3.0 * spread + 20.0 * np.where(np.isfinite(err), err, 0.0) + 1e-6 * colmax[None, :])
-        off &= np.isfinite(Jt)
-        if off.any():
-            est = np.where(off, Jt, est)
-            err = np.where(off, nb + 3.0 * spread, err)
         # a computed function that does not move at all over a step across which its slope predicts a change far above its own
-        # resolution is a staircase there (rounding of an intermediate quantity): differences say nothing about its slope
+        # resolution is a staircase there (rounding of an intermediate quantity, e.g. -2 + cos(rx) + cos(rz) for tiny angles):
+        # differences at that scale say nothing about its slope
         tt = hlast * 1e-6
+        stair_all = np.zeros(est.shape, bool)
         for i in active:
             x0 = x.flat[i]
             x.flat[i] = x0 + tt[i]
@@ -318,10 +316,17 @@ def fd_jacobian(q, rel=1e-3, skip=None, max_cols=None, rng=None):
             x.flat[i] = x0
             with np.errstate(invalid="ignore"):
                 pred = np.abs(est[:, i]) * tt[i]
-                stair = (ft == f00) & (pred > 100.0 * np.finfo(float).eps * (np.abs(f00) + np.abs(est[:, i]) * hs[i]))
-            err[stair, i] = np.inf
-            res.stairs = getattr(res, "stairs", 0) + int(stair.sum())
+                # (on a staircase the output moves by zero or by a whole stair, not by what the slope predicts)
+                stair_all[:, i] = (np.abs((ft - f00) - est[:, i] * tt[i]) > 0.5 * pred) & (pred > 100.0 * np.finfo(float).eps * (np.abs(f00) + np.abs(est[:, i]) * hs[i]))
+        # small steps that do not move the output at all carry no information either
+        off &= np.isfinite(Jt) & ~stair_all & ((Jt != 0.0) | (Jt2 != 0.0))
+        if off.any():
+            est = np.where(off, Jt, est)
+            err = np.where(off, nb + 3.0 * spread, err)
+        # ... and the height of the stairs (round-off of an intermediate of unknown size) is unknown: staircase entries do not decide
+        err = np.where(stair_all, np.inf, err)
         res.replaced = getattr(res, "replaced", 0) + int(off.sum())
+        res.stairs = getattr(res, "stairs", 0) + int(stair_all.sum())
         f()  # restore outputs at the nominal point
         # smooth: the one-sided mismatch is h*f'' and falls by 4 between h and h/4; at a kink it stays
         kink = (s2 > 0.5 * s0) & (s2 > 1e-4 * np.maximum(np.nanmax(np.abs(est), initial=0.0), 1e-300))
